@@ -2,6 +2,7 @@
 mod common;
 mod refdual;
 mod spec;
+mod progs;
 mod props;
 
 use common::*;
